@@ -45,11 +45,11 @@ class Noise(Family):
 
     def configs(self, tier):
         out = []
-        Ls = (1, 2, 3, 4) if tier == "quick" else (1, 2, 3, 4, 5, 6)
+        Ls = (1, 2, 3, 4, 5, 6) if tier == "quick" else (1, 2, 3, 4, 5, 6, 8, 10)
         for L in Ls:
             for via in ("process", "weaver"):
                 for mode in ("std", "linear-sym", "linear-array", "db-0", "db-10", "db-20", "db--10", "db-5", "db-sym", "db-array"):
-                    if tier == "quick" and L == 4 and mode in ("db-5", "db-array", "linear-array"):
+                    if tier == "quick" and L >= 5 and mode in ("db-5", "db-array", "linear-array"):
                         continue
                     out.append({"L": L, "via": via, "mode": mode})
         return out
@@ -144,7 +144,7 @@ META = {
                    "(linear, symbolic scalar and per-sample array) or 10^(snr/10) (dB: exact algebraic values for "
                    "-10, 0, 5, 10, 20 dB and a per-sample array; symbolic dB through an uninterpreted pow shared with "
                    "the oracle), or std verbatim when no SNR is given.",
-    "bounds": {"quick": "signals of 1..4 samples", "thorough": "signals of 1..6 samples"},
+    "bounds": {"quick": "signals of 1..6 samples", "thorough": "signals of 1..10 samples"},
     "outside": ["seed reproducibility and the empirical SNR of long series: statistical facts about NumPy's generator, "
                 "not expressible as an SMT query (stated in DESIGN.md, not claimed)", "float rounding"],
     "assumptions": ["signal not identically zero when an SNR is given", "snr > 0 in linear scale",
